@@ -502,3 +502,27 @@ def replay_kt(case: Dict[str, Any]) -> Tuple[bool, str]:
     trace, st = run_case(case)
     ans = Driver().run([{"m": "mp", "cfg": model_cfg(case["cfg"]), "trace": trace}])[0]
     return bool(isinstance(ans, dict) and ans.get("ok")), str(ans)[:600]
+
+
+# ---------------------------------------------------------------------------------------------
+# the C10-a negation witness of TDV.MP.error_position_statement_false, replayed on the real code
+
+C10A_CFG = {"kind": "map", "n": 6, "bs": 1, "drop_last": False, "W": 2, "pf": 2, "persistent": False, "interval": 2,
+            "sampler": "seq", "fail": [2]}
+C10A_EXPECT = ["item", "item", "error", "item", "assertion", "item", "stop"]
+
+
+def replay_c10a(seeds=(0, 1, 2)) -> Tuple[bool, str]:
+    """Runs the witness configuration (snapshot_every_n_steps=2, two workers, the third batch fails) on the real
+    loader under several schedules, and the model on the trace; returns (witness still fails on the real code,
+    description).  The Lean witness observes item,item,error,item,AssertionError,item,stop."""
+    seen = []
+    for sd in seeds:
+        case = {"cfg": C10A_CFG, "seed": sd, "policy": "random", "script": [["next"]] * 8}
+        trace, _ = run_case(case)
+        kinds = [e[1] for e in trace if e[0] == "ret"]
+        ans = Driver().run([{"m": "mp", "cfg": model_cfg(C10A_CFG), "trace": trace}])[0]
+        seen.append((kinds, bool(isinstance(ans, dict) and ans.get("ok"))))
+    fails = all(k == C10A_EXPECT for k, _ in seen)
+    agree = all(ok for _, ok in seen)
+    return fails, f"real observations {seen[0][0]} (expected by the Lean witness {C10A_EXPECT}); model accepts the traces: {agree}"
